@@ -8,6 +8,7 @@ import (
 
 	"github.com/glebziz/fs_db"
 	"github.com/glebziz/fs_db/internal/model"
+	"github.com/glebziz/fs_db/internal/utils/vhook"
 	"github.com/glebziz/fs_db/internal/utils/wpool"
 )
 
@@ -61,11 +62,13 @@ func (u *UseCase) deleteFile(ctx context.Context, file model.File) error {
 	} else if err != nil {
 		return fmt.Errorf("content file repo get: %w", err)
 	}
+	vhook.AtID("cleaner.deletefile.begin", file.ContentId)
 
 	err = u.cRepo.Delete(ctx, cf.Path())
 	if err != nil && !errors.Is(err, fs_db.ErrNotFound) {
 		return fmt.Errorf("content repo delete: %w", err)
 	}
+	vhook.AtID("cleaner.deletefile.content", file.ContentId)
 
 	err = u.dRepo.Add(ctx, model.ParseDir(cf.Parent))
 	if err != nil {
@@ -76,11 +79,13 @@ func (u *UseCase) deleteFile(ctx context.Context, file model.File) error {
 	if err != nil {
 		return fmt.Errorf("content file repo delete: %w", err)
 	}
+	vhook.AtID("cleaner.deletefile.cf", file.ContentId)
 
 	err = u.fRepo.Delete(ctx, file)
 	if err != nil {
 		return fmt.Errorf("file repo delete: %w", err)
 	}
+	vhook.AtID("cleaner.deletefile.done", file.ContentId)
 
 	return nil
 }
